@@ -684,6 +684,21 @@ class Probe:
             r = self.mhooks[m](self, e, env)
             if r is not NotImplemented:
                 return r
+        if m in ("push", "pop", "clear", "insert", "truncate") and m != "insert":
+            # Vec in place: lists are mutable values here
+            try:
+                lst = self.ev(e["recv"], env)
+            except NoEval:
+                lst = None
+            if isinstance(lst, list):
+                if m == "push" and len(e["args"]) == 1:
+                    lst.append(self.ev(e["args"][0], env))
+                    return ()
+                if m == "pop" and not e["args"]:
+                    return ("some", lst.pop()) if lst else None
+                if m == "clear" and not e["args"]:
+                    del lst[:]
+                    return ()
         if m == "take" and not e["args"]:
             # Option::take on a place: the value moves out, None stays behind
             try:
